@@ -29,11 +29,16 @@ def run_one(pid, tier, repo, quiet=False, out_dir=None):
     ck = Check(pid, tier, repo, out_dir=out_dir, quiet=quiet)
     from . import interp as _interp
     _interp.GAP_EVENTS.clear()
+    _interp.WORK[0] = 0
+    # safety net against path / term explosion on unfamiliar code: exit 2, never a hang
+    _interp.DEADLINE[0] = time.monotonic() + float(os.environ.get(
+        'VERIF_TIME_CAP', '300' if tier == 'quick' else '1500'))
     try:
         mod = importlib.import_module('vf.props.' + pid.lower())
         prog = Program(repo)
         mod.run(ck, prog, tier)
         gaps = _unexpected_gaps(mod)
+        ck.extra['interpreted_statements'] = _interp.WORK[0]
         ck.extra['modelling_gaps'] = ['%s %s at %s' % g for g in gaps][:20]
         structural = [v for v in ck.violations if v['rule'] in ck.structural_rules]
         if gaps and structural:
